@@ -63,19 +63,20 @@ impl SymbolSnapshot {
 impl BinaryOp {
     fn apply_i64(&self, lhs: i64, rhs: i64) -> i64 {
         match self {
-            BinaryOp::Add => lhs + rhs,
-            BinaryOp::Sub => lhs - rhs,
-            BinaryOp::Mul => lhs * rhs,
+            // All arithmetic wraps around on overflow instead of panicking
+            BinaryOp::Add => lhs.wrapping_add(rhs),
+            BinaryOp::Sub => lhs.wrapping_sub(rhs),
+            BinaryOp::Mul => lhs.wrapping_mul(rhs),
             BinaryOp::Div => match rhs {
                 0 => 0,
-                _ => lhs / rhs,
+                _ => lhs.wrapping_div(rhs),
             },
             BinaryOp::Mod => match rhs {
                 0 => 0,
-                _ => lhs % rhs,
+                _ => lhs.wrapping_rem(rhs),
             },
-            BinaryOp::Shl => lhs << rhs,
-            BinaryOp::Shr => lhs >> rhs,
+            BinaryOp::Shl => lhs.wrapping_shl(rhs as u32),
+            BinaryOp::Shr => lhs.wrapping_shr(rhs as u32),
             BinaryOp::Xor => lhs ^ rhs,
             BinaryOp::Eq => (lhs == rhs) as i64,
             BinaryOp::Ne => (lhs != rhs) as i64,
